@@ -120,7 +120,7 @@ mod listing {
                         vsh::write_file(&state, p, b"");
                     }
                     async move {
-                        let argv = vec!["yash".to_string(), "-c".to_string(), script];
+                        let argv = vec!["yash".to_string(), "-c".to_string(), "--".to_string(), script];
                         let run = match parse_args(argv) {
                             Ok(Parse::Run(run)) => run,
                             _ => return (2, None),
@@ -231,9 +231,13 @@ mod listing {
         "{ args 1 | cat; }",
     ];
 
+    const DASH_NAMES: &[&str] = &["-x", "-r", "--", "-", "-p", "-a b", "-f", "+x"];
+
     fn odd_name(r: &mut Rng) -> String {
-        if r.chance(6, 10) {
+        if r.chance(5, 10) {
             r.pick(IDENTS).to_string()
+        } else if r.chance(1, 4) {
+            r.pick(DASH_NAMES).to_string()
         } else {
             let s: String = random_string(r, 6).chars().filter(|c| *c != '=').collect();
             if s.is_empty() { "n".into() } else { s }
@@ -380,10 +384,43 @@ mod listing {
         defs
     }
 
-    pub fn stream(w: &mut CasesWriter, r: &mut Rng, args: &Args, f8: bool) {
-        let f9 = finding_enabled(args, "F9");
-        let f10 = finding_enabled(args, "F10");
-        let n = args.scale(48, 1000);
+    pub fn stream(w: &mut CasesWriter, r: &mut Rng, args: &Args, f15: bool) {
+        let f16 = finding_enabled(args, "F16");
+        let f17 = finding_enabled(args, "F17");
+        // ---- hand-written listings first -------------------------------------
+        round_trip(
+            w, 0, "alias",
+            "alias 'a b=c d' -- '-x=y' 'if=then' '~=~' \"a'=b\\\"c\" '=x' '--=v' 'ls=ls -F' 'nl=a\nb' 'sp= ' 'e='\n",
+            "alias",
+            |printed| format!("alias -- {}\n", split_entries(printed).join(" ")),
+            |s| s.aliases.clone(), &[],
+        );
+        let vars = "typeset -- '-x=2' 'a b=1' \"q'=5\" 'c[=]' 'n\nl=v' '~=t' '#=h'\nexport 'e f=3' E=\nreadonly 'r=4' R\n\
+                    arr=(1 '' \"'\\\\'\" '*' '~' 'a b')\nempty=()\ntypeset -x arrx\nx='a:~' y='~' z='#' w=\\\\\n";
+        round_trip(w, 11, "set", vars, "set", |p| p.to_string(),
+            |s| var_proj(s, |v| is_name(&v.0) && !v.3.starts_with('N'), false)
+                .into_iter()
+                .map(|(n, v)| if v.starts_with('S') { (n, v[1..].to_string()) } else { (n, v) })
+                .collect(), &[]);
+        round_trip(w, 3, "export -p", vars, "export -p", |p| p.to_string(), |s| var_proj(s, |v| v.1, false), &[]);
+        round_trip(w, 4, "readonly -p", vars, "readonly -p", |p| p.to_string(), |s| var_proj(s, |v| v.2, false), &[]);
+        round_trip(w, 5, "typeset -p", vars, "typeset -p", |p| p.to_string(), |s| var_proj(s, |_| true, true), &[]);
+        round_trip(w, 2, "trap",
+            "trap -- 'echo \"x\"' INT\ntrap '' TERM\ntrap - QUIT\ntrap -- '-x' HUP\ntrap -- \"a'b\" EXIT\ntrap -- '#' USR1\n",
+            "trap", |p| p.to_string(), |s| s.traps.clone(), &[]);
+        round_trip(w, 9, "typeset -fp",
+            "f() { args \"$1\" 'x y'; }\n'-f'() { args 1; }\n'+'() (args 2)\n'a.b'() { args 3; }\ntypeset -fr f\ntypeset -fr -- -f\n",
+            "typeset -fp", |p| p.to_string(), |s| s.functions.clone(), &[]);
+        if f16 {
+            round_trip(w, 9, "typeset -fp", "'a b'() { args 1; }\n", "typeset -fp", |p| p.to_string(),
+                |s| s.functions.clone(), &["F16"]);
+        }
+        if f17 {
+            round_trip(w, 9, "typeset -fp", "'if'() { args 1; }\n", "typeset -fp", |p| p.to_string(),
+                |s| s.functions.clone(), &["F17"]);
+        }
+
+        let n = args.scale(160, 1000);
         for k in 0..n {
             let mut r = r.fork(k as u64);
             match k % 8 {
@@ -398,11 +435,11 @@ mod listing {
                         let dd = if name.starts_with('-') { "-- " } else { "" };
                         defs.push_str(&format!("alias {dd}{}\n", sq(&format!("{name}={value}"))));
                     }
-                    if hazard && !f8 {
-                        w.count("skipped:F8-cases(finding not registered)");
+                    if hazard && !f15 {
+                        w.count("skipped:F15-cases(finding not registered)");
                         continue;
                     }
-                    let tags: &[&str] = if hazard { &["F8"] } else { &[] };
+                    let tags: &[&str] = if hazard { &["F15"] } else { &[] };
                     round_trip(
                         w,
                         0,
@@ -478,7 +515,7 @@ mod listing {
                     for _ in 0..1 + r.below(5) {
                         let o = *r.pick(&[
                             "allexport", "noclobber", "noglob", "nounset", "pipefail", "ignoreeof",
-                            "hashondefinition", "notify", "posixlycorrect", "nolog", "verbose", "vi", "emacs",
+                            "hashondefinition", "notify", "posixlycorrect", "nolog", "verbose", "vi", "errexit", "xtrace", "portable",
                         ]);
                         let sign = if r.chance(3, 4) { "-" } else { "+" };
                         defs.push_str(&format!("set {sign}o {o}\n"));
@@ -503,22 +540,22 @@ mod listing {
                         let name = match r.below(12) {
                             0 => {
                                 // a name that needs quoting is printed with the
-                                // `function` keyword, which the parser rejects (F9)
-                                if !f9 {
-                                    w.count("skipped:F9-cases(finding not registered)");
+                                // `function` keyword, which the parser rejects (F16)
+                                if !f16 {
+                                    w.count("skipped:F16-cases(finding not registered)");
                                     r.pick(IDENTS).to_string()
                                 } else {
-                                    tags.push("F9");
+                                    tags.push("F16");
                                     r.pick(&["a b", "x=y", "~", "*", "a'b"]).to_string()
                                 }
                             }
                             1 => {
-                                // a reserved word as function name is printed bare (F10)
-                                if !f10 {
-                                    w.count("skipped:F10-cases(finding not registered)");
+                                // a reserved word as function name is printed bare (F17)
+                                if !f17 {
+                                    w.count("skipped:F17-cases(finding not registered)");
                                     r.pick(IDENTS).to_string()
                                 } else {
-                                    tags.push("F10");
+                                    tags.push("F17");
                                     r.pick(&["if", "!", "{", "for", "case", "}"]).to_string()
                                 }
                             }
@@ -672,8 +709,8 @@ pub fn random_string(r: &mut Rng, max_len: usize) -> String {
 
 /// An arbitrary line for the reader model: pieces in the three notations,
 /// bare runs, blanks, backslashes, now and then something unbalanced.
-fn random_line(r: &mut Rng) -> String {
-    const BARE: &[char] = &['a', 'b', '1', '-', '/', ':', '~', '=', '#', '[', ']', '{', '}', '*', '?', '!', '%', '^', ',', '.', 'x'];
+fn random_line(r: &mut Rng, one_word: bool) -> String {
+    const BARE: &[char] = &['a', 'b', '1', '-', '/', ':', '~', '=', '#', '[', ']', '{', '}', '!', '%', '^', ',', '.', 'x', 'a', ':', '~', '*', '?'];
     const INSIDE: &[char] = &['a', 'b', ' ', '\t', '\n', ';', '&', '|', '(', ')', '<', '>', '*', '?', '[', ']', '~', ':', '=', '#', '\\', '\'', '"', 'x', '\u{a0}', '\u{3000}'];
     let mut s = String::new();
     let pieces = 1 + r.below(6);
@@ -713,10 +750,14 @@ fn random_line(r: &mut Rng) -> String {
                 s.push('\\');
                 s.push(*r.pick(INSIDE));
             }
-            11..=12 => s.push(*r.pick(&[' ', ' ', '\t', '\u{a0}', '\u{3000}', '\u{2003}'])),
+            11..=12 => {
+                if !one_word || r.chance(1, 6) {
+                    s.push(*r.pick(&[' ', ' ', '\t', '\u{a0}', '\u{3000}', '\u{2003}']))
+                }
+            }
             13 => s.push_str("\\\n"),
             14 => s.push(*r.pick(&['\'', '"', '\\', '#', '~'])), // possibly unbalanced
-            _ => s.push(*r.pick(&[' ', 'a', '1', '2'])),
+            _ => s.push(*r.pick(&['a', 'a', '1', '2'])),
         }
     }
     s
@@ -781,8 +822,8 @@ fn quote_stream(w: &mut CasesWriter, strings: &[String]) {
 fn line_stream(w: &mut CasesWriter, r: &mut Rng, n: usize) {
     for k in 0..n {
         let mut rr = r.fork(k as u64);
-        let text = random_line(&mut rr);
         let kind = rr.below(3);
+        let text = random_line(&mut rr, kind != 0);
         let reading = read_one(kind, &text);
         w.count(&format!("line:kind{kind}"));
         w.count(if reading.is_some() { "line:read" } else { "line:rejected" });
@@ -982,7 +1023,7 @@ fn pair_case(w: &mut CasesWriter, n: &str, v: &str, files: &[&str], tags: &[&str
 }
 
 /// `name[=]value` hazard: a bare name with `[` and a bare value with `]` give
-/// a bracket expression across the `=` (finding F8).
+/// a bracket expression across the `=` (finding F15).
 fn pair_is_f8(n: &str, v: &str) -> bool {
     let qn = yash_quote::quote(n);
     let qv = yash_quote::quote(v);
@@ -1006,7 +1047,7 @@ fn main() {
     let args = Args::parse();
     let mut rng = Rng::new(args.seed);
     let mut w = CasesWriter::new(&args, "Yv.C07.Run", 60);
-    let f8 = finding_enabled(&args, "F8");
+    let f15 = finding_enabled(&args, "F15");
 
     // ---- corpus -----------------------------------------------------------
     ws_case(&mut w);
@@ -1028,12 +1069,12 @@ fn main() {
     for (n, v) in [("a", "b"), ("", "x"), ("a b", "c d"), ("a'", "b'"), ("a[", "b"), ("a", "]"), ("~", "~"), ("a:", "~"), ("-x", "y"), ("if", "then")] {
         pair_case(&mut w, n, v, &[], &[]);
     }
-    if f8 {
-        // F8: the alias listing line `a[=]x` is a pattern; with a file `a=x`
+    if f15 {
+        // F15: the alias listing line `a[=]x` is a pattern; with a file `a=x`
         // in the directory it reads back as `a=x`.
-        pair_case(&mut w, "a[", "]x", &["/a=x"], &["F8"]);
+        pair_case(&mut w, "a[", "]x", &["/a=x"], &["F15"]);
     } else {
-        w.count("skipped:F8-cases(finding not registered)");
+        w.count("skipped:F15-cases(finding not registered)");
     }
 
     // ---- bounded-exhaustive ------------------------------------------------
@@ -1081,10 +1122,10 @@ fn main() {
         let n: String = random_string(&mut r, 8).chars().filter(|c| *c != '=').collect();
         let v = random_string(&mut r, 8);
         if pair_is_f8(&n, &v) {
-            if f8 {
-                pair_case(&mut w, &n, &v, &[], &["F8"]);
+            if f15 {
+                pair_case(&mut w, &n, &v, &[], &["F15"]);
             } else {
-                w.count("skipped:F8-cases(finding not registered)");
+                w.count("skipped:F15-cases(finding not registered)");
             }
             continue;
         }
@@ -1093,7 +1134,7 @@ fn main() {
 
     // ---- listings ------------------------------------------------------------------
     let mut r = rng.fork(4);
-    listing::stream(&mut w, &mut r, &args, f8);
+    listing::stream(&mut w, &mut r, &args, f15);
 
     w.finish(
         "strings over every shell-special character, quotes, newline, tab, non-ASCII blanks and ordinary \
